@@ -183,7 +183,7 @@ theorem candset_safe_ed_float (k : FilterKind) (hq : q ≤ 2 ^ 10)
     (hf : f.cfg = { measure := .editDistance, threshold := .float t, qval := .int q })
     (a : CandsetArgs) (cpu : Int) (c l r fr : Frame)
     (hval : EntryFilters.CandsetValid a c l r)
-    (hres : filterCandset a (filterPair k f (qgrams q pad)) cpu = .ok fr)
+    (hres : filterCandset a (filterPairPy k f (qgrams q pad)) cpu = .ok fr)
     (cr ls rs : Row) (hcr : cr ∈ c.rows) (hls : ls ∈ l.rows) (hrs : rs ∈ r.rows)
     (hkl : keyOf l a.lKey ls = cr.cell (c.colIdx a.candLKey)) (hkr : keyOf r a.rKey rs = cr.cell (c.colIdx a.candRKey))
     (hlp : Present l a.lAttr ls) (hrp : Present r a.rAttr rs)
@@ -192,7 +192,7 @@ theorem candset_safe_ed_float (k : FilterKind) (hq : q ≤ 2 ^ 10)
     (hd : ((lev (strOf l a.lAttr ls) (strOf r a.rAttr rs) : Nat) : Rat) ≤ t)
     (hshare : shareToken (qgrams q pad) (strOf l a.lAttr ls) (strOf r a.rAttr rs) = true) :
     cr ∈ fr.rows :=
-  candset_safe_of_pair a _ cpu c l r fr hval hres cr ls rs hcr hls hrs hkl hkr
+  candset_safe_of_pair a _ _ (filterPairPy_ok_eq _ _ _) cpu c l r fr hval hres cr ls rs hcr hls hrs hkl hkr
     (pair_safe_ed_float f t q pad ht0 ht1 k hq hf _ _ hlp hrp hnl hnr hd hshare)
 
 variable (a : TableArgs) (tk : TokObj) (toks : TokFn) (cpu : Int) (l r fr : Frame)
@@ -299,14 +299,14 @@ theorem tables_safe_overlap_float (a : TableArgs) (tk : TokObj) (toks : TokFn) (
     two rows with present join values and at least `t` common tokens -/
 theorem candset_safe_overlap_float (tok : String → List Tok) (hnd : ∀ s, (tok s).Nodup)
     (a : CandsetArgs) (cpu : Int) (c l r fr : Frame)
-    (hval : EntryFilters.CandsetValid a c l r) (hres : filterCandset a (filterPair kind f tok) cpu = .ok fr)
+    (hval : EntryFilters.CandsetValid a c l r) (hres : filterCandset a (filterPairPy kind f tok) cpu = .ok fr)
     (cr ls rs : Row) (hcr : cr ∈ c.rows) (hls : ls ∈ l.rows) (hrs : rs ∈ r.rows)
     (hkl : keyOf l a.lKey ls = cr.cell (c.colIdx a.candLKey)) (hkr : keyOf r a.rKey rs = cr.cell (c.colIdx a.candRKey))
     (hlp : Present l a.lAttr ls) (hrp : Present r a.rAttr rs)
     (hnl : (tokensOf tok l a.lAttr ls).length < 2 ^ 32) (hnr : (tokensOf tok r a.rAttr rs).length < 2 ^ 32)
     (ho : t ≤ ((interCount (tokensOf tok l a.lAttr ls) (tokensOf tok r a.rAttr rs) : Nat) : Rat)) :
     cr ∈ fr.rows :=
-  candset_safe_of_pair a _ cpu c l r fr hval hres cr ls rs hcr hls hrs hkl hkr
+  candset_safe_of_pair a _ _ (filterPairPy_ok_eq _ _ _) cpu c l r fr hval hres cr ls rs hcr hls hrs hkl hkr
     (pair_safe_overlap_float kind f t hm hthr ht0 ht1 tok hnd _ _ hlp hrp hnl hnr ho)
 
 end OverlapFloat
@@ -335,7 +335,7 @@ example : ∃ fr, filterTables .position { cfg := { measure := .editDistance, th
       edA edT edToks 4 = .ok fr ∧ ∃ row ∈ fr.rows, rowKeys row = (Cell.int 1, Cell.int 7) := by
   obtain ⟨fr, hfr⟩ := tables_returns_frame .position
     { cfg := { measure := .editDistance, threshold := .float (3 / 2), qval := .int 2 } } edA edT edToks 4 edL edR
-    ed_valid ed_keys
+    ed_valid ed_keys (by decide +kernel)
   refine ⟨fr, hfr, ?_⟩
   have h : lev "aab" "aaab" ≤ 1 := by decide
   have h' : ((lev "aab" "aaab" : Nat) : Rat) ≤ 1 := by exact_mod_cast h
